@@ -334,7 +334,7 @@ def handleWin (op : String) : P String := do
   | "splitsok" => do
       let n ← pInt
       let l ← pCounted pInt
-      pure (showBool (splitsOKb n l) ++ " " ++ showBool (hasDup l))
+      pure (showBool (splitsOKb n l) ++ " " ++ showBool (tooClose l))
   | "win" => do
       let mode ← tok
       let fs ← pCounted pTransAtom
